@@ -17,7 +17,10 @@ TInit == l = 1 /\ g = EmptyGraph /\ viol = {} /\ nev = 0
 Step ==
     /\ l <= Len(Trace)
     /\ LET e  == Trace[l]
-           gs == IF e.ev = "panic" THEN {G("nopanic", {"C19", "C05", "C06"}, FALSE)} ELSE Guards(g, e)
+           gs == IF e.ev = "panic" THEN {G("nopanic", {"C19", "C05", "C06"}, FALSE)}
+                 \* a query that never returned (hang) or took the process down (fatal, e.g. unbounded recursion)
+                 ELSE IF e.ev \in {"hang", "fatal"} THEN {G("call_terminates", {"C19", "C05", "C06"}, FALSE)}
+                 ELSE Guards(g, e)
        IN  /\ g' = IF e.ev = "reset" THEN EmptyGraph ELSE GApply(g, e)
            /\ viol' = viol \cup UNION {{<<t, gd.name, l>> : t \in gd.tags \cap Check} : gd \in {x \in gs : ~x.ok}}
            /\ nev' = nev + Cardinality(gs)
